@@ -245,6 +245,30 @@ theorem session_end_is_notified {σ π Out : Type} (M : Machine σ π Out) (k : 
   · intro h; simp [localStep, h]
   · intro h; simp [localStep, h]
 
+/-- The Close Session flag may sit on ANY packet of the session (RFC 5651), including data and FDT packets: such a
+    packet is first handed to its session's receiver exactly like any other packet (same instant, same state, the
+    whole packet - its output is logged), and only then the session ends, with exactly one `closed`. -/
+theorem close_flagged_packet_is_processed_then_session_ends {σ π Out : Type} (M : Machine σ π Out) (s : State σ Out)
+    (ep : Endpoint) (pkt : Pkt π) (se : Sess σ)
+    (hacc : (s.filtering && !(isValid s.filter ep pkt.tsi)) = false) (hc : pkt.close = true)
+    (hg : AL.get s.table ⟨ep, pkt.tsi⟩ = some se) :
+    let s' := (MultiRecv.push M s ep (some pkt)).1
+    s'.outs = s.outs ++ [(⟨ep, pkt.tsi⟩, se.key, (M.push s.clock se.st pkt).2)] ∧
+    s'.events = s.events ++ [.closed ⟨ep, pkt.tsi⟩] ∧ AL.get s'.table ⟨ep, pkt.tsi⟩ = none := by
+  simp [MultiRecv.push, hacc, hc, hg, AL.get_del]
+
+/-- ... so for every session machine whose output does not depend on the flag (the real `Receiver` only records it in
+    `closed_is_imminent`, which nothing reads; validated by the harness' reference runs), the flagged packet delivers
+    exactly what the same packet without the flag delivers. -/
+theorem close_flag_keeps_payload {σ π Out : Type} (M : Machine σ π Out) (s : State σ Out)
+    (ep : Endpoint) (pkt : Pkt π) (se : Sess σ)
+    (hneutral : ∀ t st (p : Pkt π), (M.push t st { p with close := true }).2 = (M.push t st { p with close := false }).2)
+    (hacc : (s.filtering && !(isValid s.filter ep pkt.tsi)) = false)
+    (hg : AL.get s.table ⟨ep, pkt.tsi⟩ = some se) :
+    (MultiRecv.push M s ep (some { pkt with close := true })).1.outs
+      = (MultiRecv.push M s ep (some { pkt with close := false })).1.outs := by
+  simp [MultiRecv.push, hacc, hg, hneutral]
+
 private def exLis : List (MultiRecv.Op Unit) :=
   [.push exK1.ep (some exD), .tick 2, .cleanup 0, .push exK1.ep (some exD), .push exK1.ep (some exC),
    .push exK1.ep (some exC), .push exK1.ep (some exD), .drop]
